@@ -321,7 +321,7 @@ def run_harness(cases, profile="debug", timeout=900):
 # ------------------------------------------------------------------ model execution inside Coq
 
 CASE_HEADER = """From Coq Require Import ZArith List String.
-Require Import PP.FloatModel PP.Expr PP.FloatOps PP.Model.PwModel PP.Model.Run PP.Model.Extra PP.Model.Wire PP.Model.Hyp PP.Gen.Kernels PP.Proofs.QuarticFloat PP.Proofs.QuarticClosedFloat PP.Proofs.QuarticKnotFloat PP.Props.C09F PP.Props.C11F PP.Props.C11L PP.Proofs.SplineFloat.
+Require Import PP.FloatModel PP.Expr PP.FloatOps PP.Model.PwModel PP.Model.Run PP.Model.Extra PP.Model.Wire PP.Model.Hyp PP.Gen.Kernels PP.Proofs.QuarticFloat PP.Proofs.QuarticClosedFloat PP.Proofs.QuarticKnotFloat PP.Proofs.QuarticIntegralFloat PP.Props.C09F PP.Props.C11F PP.Props.C11L PP.Proofs.SplineFloat.
 Import ListNotations.
 Open Scope Z_scope.
 Set Printing Width 100000000.
